@@ -18,7 +18,7 @@ SIM_UNIT = "horizon steps solved"
 BUDGET = {"quick": {"runs": 8000, "wall": 80}, "thorough": {"runs": 60000, "wall": 1500}}
 SHRINK_LISTS = ("ops",)
 PROBES = {"C14": ["second-solve", "solve-at-stale-clock", "solve-after-jump", "solve-after-syscall", "ltv", "lti",
-                  "ns=1", "batch>1", "T=1", "u:none", "u:zeros", "u:random", "u:prev", "two-lqr-share-system",
+                  "ns=1", "batch>1", "T=1", "u:none", "u:zeros", "u:random", "u:prev", "u:prev-shifted-in-place", "two-lqr-share-system",
                   "mpc-linear", "mpc-nonlinear", "nls-time-dependent", "mpc-nonmonotone", "unstable-A", "cond>1e4"]}
 import os
 TS = float(os.environ.get("PPSIM_TOLSCALE", "1"))
@@ -48,7 +48,7 @@ def generate(seed, tier, prop="C14"):
         x = ro.random()
         if i == 0 or x < 0.55:
             o = {"id": i, "op": "solve", "lqr": ro.randint(0, 1) if cfg["two"] else 0,
-                 "u": ro.choice(["none", "zeros", "random", "prev"])}
+                 "u": ro.choice(["none", "zeros", "random", "prev", "prev-shifted-in-place"])}
             if kind == "NLS" or (B == 1 and ro.random() < 0.15):      # MPC: single batch, as documented
                 o["op"] = "mpc"
         elif x < 0.7:
@@ -182,6 +182,7 @@ def execute(plan, prop, out, tr):
 
     clock = 0
     prev_u = {}
+    prev_obj = {}
     n_solves = 0
     dirty = None
     for o in plan["ops"]:
@@ -209,6 +210,12 @@ def execute(plan, prop, out, tr):
             u0 = rng.randn(s, ("u0", i), (B, T, nc), dt)
         elif uk == "prev" and j in prev_u:
             u0 = prev_u[j].clone()
+        elif uk == "prev-shifted-in-place" and j in prev_obj and op != "mpc":
+            # receding horizon: the very tensor the last solve returned, shifted by one step in place
+            u0 = prev_obj[j]
+            if T > 1:
+                u0[:, :-1] = u0[:, 1:].clone()
+            u0[:, -1] = rng.randn(s, ("ushift", i), (B, nc), dt)
         else:
             u0, uk = None, "none"
         out.probe("u:" + uk)
@@ -239,6 +246,7 @@ def execute(plan, prop, out, tr):
         n_solves += 1; dirty = None
         out.sim_time += T; out.ops += 1
         prev_u[j] = u.detach().clone()
+        prev_obj[j] = u
         tr.ev("solve", i, x, u, cost)
         if not torch.equal(x0, x0b) or (u0 is not None and not torch.equal(u0, u0b)):
             raise Violation("C14.mutation", ctx + ": x_init / u_traj modified", i, "mutation")
